@@ -74,7 +74,7 @@ def pipelines(rng, project, n):
                   [L.op_record('dup', k, '_d'), L.op_record('rm', k2)] if k != k2 else [L.op_record('rm', k2)],
                   [L.op_record('dep', '', '_x', ''), L.op_record('rm', k2)]]     # (renaming before a name-valued removal)
     rng.shuffle(cands)
-    return out + cands[:max(0, n - 1)]
+    return (out if rng.random() < 0.45 else []) + cands[:max(1, n - 1)]
 
 
 def path_record(path, src_root, out, inv, base):
@@ -220,7 +220,7 @@ def run(ctx):
     phases['model_checking'] = round(ctx.elapsed(), 1)
 
     runs = []
-    budget = time.time() + (80 if quick else 800)
+    budget = time.time() + (80 if quick else 600)
     if ctx.replay:
         c = ctx.replay['case']
         c = dict(c, P=L.normalize_project(c['P']))
@@ -229,9 +229,9 @@ def run(ctx):
         for name, t in corpus_cases():
             runs.append(({'origin': f'corpus-expectation:{name}', 'pipe': t['pipe']}, t))
         ncorpus = len(runs)
-        small = L.gen_small(ctx, 20 if quick else 200, 4)
+        small = L.gen_small(ctx, 20 if quick else 150, 4)
         pool = [(L.normalize_project(c['P']), 'tlc') for c in small]
-        legal, yield_ = L.seeded_pairs(ctx, 16 if quick else 200)
+        legal, yield_ = L.seeded_pairs(ctx, 16 if quick else 150)
         pool += [(P, 'seeded') for P, _ in legal]
         ctx.cover['seeded_candidates_legal'] = yield_
         ctx.rng.shuffle(pool)
